@@ -104,16 +104,25 @@ impl Sink {
 
 fn parse_event<T: Inst>(sink: &mut Sink, sh: &str, inst: &str, s: &str)
 where
-    <T as PurlShape>::Error: ErrName + From<<T as FromStr>::Err>,
+    <T as PurlShape>::Error: ErrName + From<<T as FromStr>::Err> + std::fmt::Display,
 {
     let (obs, p) = replay::parse_outcome::<T>(s);
+    // the error text is part of the observable result (C17 compares it across feature sets)
+    let text = if obs["ok"] == json!(false) {
+        match catch_unwind(AssertUnwindSafe(|| GenericPurl::<T>::from_str(s))) {
+            Ok(Err(e)) => e.to_string(),
+            _ => String::new(),
+        }
+    } else {
+        String::new()
+    };
     // universal properties are observed on the live value (C01 fixpoint, C10 rebuild, C04 coherence)
     sink.ctx.case = json!({"s": cps(s)});
     if let Some(p) = &p {
         let known = obs["v"].clone();
         replay::universal(&mut sink.ctx, inst, p, &obs, &[&known], "parse");
     }
-    sink.emit(json!({"ev": "parse", "sh": sh, "inst": inst, "s": cps(s), "out": obs, "lc": lc_table(&[s])}));
+    sink.emit(json!({"ev": "parse", "sh": sh, "inst": inst, "s": cps(s), "out": obs, "text": text, "lc": lc_table(&[s])}));
 }
 
 fn parse_all(sink: &mut Sink, s: &str) {
@@ -282,6 +291,20 @@ fn drive_garbage(sink: &mut Sink, rng: &mut Rng, n: usize) {
 fn drive_corpus(sink: &mut Sink, rng: &mut Rng, n: usize, corpus: &[String]) {
     for s in corpus {
         parse_all(sink, s);
+    }
+    // systematic look-alike sweep: every single substitution of a letter by a non-ASCII look-alike
+    for s in corpus {
+        let chars: Vec<char> = s.chars().collect();
+        for i in 0..chars.len() {
+            for (a, b) in LOOKALIKES {
+                if chars[i] == *a {
+                    let mut c = chars.clone();
+                    c[i] = *b;
+                    let m: String = c.into_iter().collect();
+                    parse_all(sink, &m);
+                }
+            }
+        }
     }
     for _ in 0..n {
         let base = rng.pick(corpus).clone();
